@@ -14,7 +14,7 @@
    only (theorems.json). *)
 From Coq Require Import SpecFloat.
 Require Import Base Value Float PrintOptions Printer ParseOptions Utf8 Reader Scan Num NumberOps Parser.
-Require Import RelFramework IoProofs RoundtripProofs TextProofs SimFramework InterruptProofs.
+Require Import RelFramework IoProofs RoundtripProofs TextProofs SimFramework InterruptProofs CrossProofs SourcesAgree.
 Local Open Scope nat_scope.
 
 Theorem C06_failure_is_error : forall r e l, rpending r = false -> skip_intr (rinput r) = EFail e :: l ->
@@ -63,6 +63,48 @@ Proof.
   rewrite (roundtrip_from_trait ryu alpha fast std_parse k2 v Hok Hd). reflexivity.
 Qed.
 Print Assumptions C06_sources_agree_partial.
+
+(* A byte slice and an io::Read stream of the same bytes are read alike: for
+   every option set, oracle, build and byte string - well-formed or not, valid
+   UTF-8 or not - from_slice and from_reader return the same value, or errors
+   with the same code (hence the same category and kind; the position attached
+   to an error may differ when the error is raised on a byte that was read but
+   not peeked). SliceRead and IoRead differ in their symbol and string scanners
+   (bulk scans over the slice against a byte-at-a-time loop), in discard (the
+   stream only drops a byte it has peeked) and in peek_position; the proof runs
+   every function of the parser on both readers side by side, with discards
+   justified by the pending byte and the scanner pairs related by induction on
+   the input. *)
+Theorem C06_slice_stream_agree : forall ro alpha fast std_parse (s : bytes),
+  match from_trait ro alpha fast std_parse SrcSlice (bytes_events s), from_trait ro alpha fast std_parse SrcIo (bytes_events s) with
+  | POk a, POk b => a = b
+  | PErr (XErr (ESyntax c1 _ _)), PErr (XErr (ESyntax c2 _ _)) => c1 = c2
+  | PErr (XErr (EIo a)), PErr (XErr (EIo b)) => a = b
+  | _, _ => False
+  end.
+Proof. exact slice_stream_agree. Qed.
+Print Assumptions C06_slice_stream_agree.
+
+(* The same at every call: from a slice reader and a stream reader standing at
+   the same place of the same bytes, next_value returns the same item (or errors
+   with the same code) and leaves the readers at the same place again - unless
+   the stream run exhausts the fuel it was given - so the statement chains over
+   iterations and call histories. *)
+Theorem C06_slice_stream_every_call : forall ro alpha fast std_parse fuel s1 s2, prel s1 s2 ->
+  fst (next_value ro alpha fast std_parse fuel s2) = PErr (XErr EFuel) \/
+  (rpres eq (fst (next_value ro alpha fast std_parse fuel s1)) (fst (next_value ro alpha fast std_parse fuel s2)) /\
+   prel (snd (next_value ro alpha fast std_parse fuel s1)) (snd (next_value ro alpha fast std_parse fuel s2))).
+Proof. intros ro alpha fast std_parse fuel. exact (proj1 (cross_values ro alpha fast std_parse fuel)). Qed.
+Print Assumptions C06_slice_stream_every_call.
+
+Example C06_slice_stream_nonvacuous :
+  let bad : bytes := [40; 97; 32; 255; 41]%N in       (* "(a \xFF)": not UTF-8 *)
+  from_trait default_ro (fun _ => true) true dec_to_f64 SrcSlice (bytes_events bad) =
+    PErr (XErr (ESyntax InvalidUnicodeCodePoint 1 4)) /\
+  from_trait default_ro (fun _ => true) true dec_to_f64 SrcIo (bytes_events bad) =
+    PErr (XErr (ESyntax InvalidUnicodeCodePoint 1 4)) /\
+  prel (init_state SrcSlice (bytes_events bad)) (init_state SrcIo (bytes_events bad)).
+Proof. cbv zeta. split; [vm_compute; reflexivity|]. split; [vm_compute; reflexivity|]. apply init_prel. Qed.
 
 (* a failure in the middle of a token, of a list, after an interrupt *)
 (* Interrupted results anywhere in the stream: strip removes them; two streams
